@@ -1047,6 +1047,202 @@ def run_c15(ctx):
     return ncases
 
 
+# ---------------------------------------------------------------------------------------------
+# C19 / C06: the file-object programs (capacities, injected faults)
+
+def _kinds(log):
+    """op kinds with the sizes that matter: seeks only by kind (the real log has relative seeks as s-<n>)"""
+    out = []
+    for x in log:
+        out.append(x[0] if x[0] in "se" else x)
+    return out
+
+
+def gen_fault_file(rng, codec):
+    """a small well-formed multiplexed file whose comment packet sits on 1..3 pages"""
+    serial = rng.choice([1, 7, 0x7FFFFFFF])
+    c = CODECS[codec]
+    vendor = rng.choice([b"", b"Xiph"])
+    items = [(b"TITLE", b"v" * rng.choice([0, 3, 40]))][:rng.choice([0, 1])]
+    vc = vcomment(vendor, items, c["framing"])
+    padding = rng.choice([0, 0, 5, 60]) if codec != "flac" else 0
+    packets = [id_packet(codec), comment_packet(codec, vc, padding)]
+    pages_for_comment = rng.choice([1, 1, 2, 3])
+    if pages_for_comment > 1:
+        packets[1] = comment_packet(codec, vcomment(vendor, items + [(b"BIG", b"b" * (255 * (pages_for_comment - 1) + rng.choice([0, 30]) - len(vc) % 255))], c["framing"]), 0)
+    if c["setup"]:
+        packets.append(c["setup"] + rbytes(rng, rng.choice([5, 60])))
+    packets += [rbytes(rng, rng.choice([1, 40, 300])) for _ in range(rng.choice([1, 2, 4]))]
+    mine = paginate(rng, packets, serial, maxsegs=1 if pages_for_comment > 1 else rng.choice([3, 255]))
+    streams = [mine]
+    if rng.random() < 0.6:
+        streams.append(gen_foreign_stream(rng, serial + 5))
+    pages = interleave(rng, streams, bos_first=True) if len(streams) > 1 else mine
+    return b"".join(render_page(p) for p in pages), pages, serial
+
+
+def run_faults(ctx):
+    """OggFileType.save / delete on capacity-limited and fault-injecting file objects (harness/fobj.py FaultFile)
+    against the FileM programs of the model (`ogginject op=savem|deletem … cap= leak= fail=`): same outcome class, same
+    bytes left; the model's log of calls is the tail of the real one (same operations in the same order); and the
+    statements of C19 / C06 on the real outcome.  Returns the number of cases."""
+    from fobj import FaultFile, TraceFile
+    from mutagen import MutagenError
+    rng = ctx.rng
+    n = int(os.environ.get("VERIF_OGGFAULT_CASES", "0")) or ctx.budget(6, 40)
+    reqs = []
+    ncases = 0
+    for codec in CODECS:
+        c = CODECS[codec]
+        cls, _ = classes(codec)
+        for i in range(n):
+            data, pages, serial = gen_fault_file(rng, codec)
+            try:
+                t0 = cls(io.BytesIO(data))
+            except Exception:
+                continue
+            op = rng.choice(["save", "save", "delete"])
+            grow = rng.choice([0, 1, 20, 300, 700, 5000])
+            pad = rng.choice(["0", "0", "default", "7"])
+
+            def prepare(data=data, op=op, grow=grow, cls=cls):
+                t = cls(io.BytesIO(data))
+                if op == "save":
+                    t.tags["title"] = ["x" * grow]
+                return t
+
+            def act(t, f, op=op, pad=pad):
+                if op == "save":
+                    t.save(f, padding=None if pad == "default" else (lambda info: int(pad)))
+                else:
+                    t.delete(f)
+            t = prepare()
+            if op == "save":
+                vc = t.tags.write(framing=c["framing"])
+                base = "ogginject fmt=%s op=savem data=%s vc=%s paddata=- pad=%s" % (codec, hx(data), hx(vc), pad)
+            else:
+                base = "ogginject fmt=%s op=deletem data=%s vendor=%s paddata=-" % (codec, hx(data), hx(t.tags.vendor.encode("utf-8")))
+            tf = TraceFile(data)
+            k, r = timed(lambda: act(t, tf), 20)
+            if k != "ok":
+                continue
+            ref = tf.getvalue()
+            comment_pages = sum(1 for _ in [0])  # placeholder, computed below
+            mine = [p for p in pages if p["serial"] == serial]
+            _, _, where = stream_packets(mine)
+            comment_pages = sum(1 for w in where if 1 in w)
+            case = dict(fmt=codec, op=op, grow=grow, pad=pad, len=len(data), comment_pages=comment_pages,
+                        data=hx(data) if len(data) < 900 else "len=%d" % len(data))
+            reqs.append((base, ("clean", tf.log, ref), case))
+            ncases += 1
+            # ---- capacities: every value up to the peak for small growth, a sample beyond
+            peak = max(0, len(ref) - len(data)) + sum(len(render_page(p)) for p in mine[:comment_pages + 1])
+            caps = list(range(0, min(peak, 70) + 1)) + sorted(set(rng.randrange(0, peak + 1) for _ in range(6)))
+            for rcap in caps:
+                leak = rng.choice([0, 0, 5])
+                ff = FaultFile(data, cap=len(data) + rcap, leak=leak)
+                t = prepare()
+                k, r = timed(lambda: act(t, ff), 20)
+                after = ff.getvalue()
+                if k == "hang":
+                    ctx.violation("oggfault:%s:hang" % codec, "did not finish", case); continue
+                cc = dict(case, remaining_capacity=rcap, leak=leak)
+                ctx.case(key=("oggfault", codec, op, i, rcap, leak), nontrivial=(k != "ok"), modelled=True)
+                ncases += 1
+                if k == "ok":
+                    if after != ref:
+                        ctx.violation("oggfault:%s:returns-normally-on-full-device" % codec, "normal return with a file that is not the saved one", cc)
+                    impl = "ok"
+                else:
+                    if not isinstance(r, MutagenError):
+                        ctx.violation("oggfault:%s:enospc-raises-%s" % (codec, type(r).__name__), "ENOSPC surfaced as %s" % type(r).__name__, cc)
+                    if comment_pages == 1 and after != data:
+                        ctx.violation("oggfault:%s:file-modified-on-enospc" % codec, "comment on one page, yet the file changed although %s failed" % op, cc)
+                    elif comment_pages > 1:
+                        # the pages of the other streams and the pages behind the comment run: all still there, in order
+                        pos = 0
+                        for p in pages:
+                            if p["serial"] == serial and p in mine[:comment_pages + 1]:
+                                continue
+                            raw = render_page(p)
+                            at = after.find(raw, pos)
+                            if at < 0 and p["serial"] != serial:
+                                ctx.violation("oggfault:%s:payload-damaged-on-enospc" % codec, "a page of another stream is no longer in the file after the failed %s" % op, cc)
+                                break
+                            if at >= 0:
+                                pos = at + len(raw)
+                    impl = classify(r)
+                ctx.hist["oggfault:cap:%s:%s" % ("1page" if comment_pages == 1 else "npages", impl if impl == "ok" else "err")] += 1
+                reqs.append((base + " cap=%d leak=%d" % (len(data) + rcap, leak), ("run", impl, after), cc))
+            # ---- injected faults: at the calls of the write phase (known once the model's log is there) and a few before
+            reqs.append((base, ("faults", tf.log, (codec, op, i, prepare, act, data, ref)), case))
+    answers = ask_model(ctx, [r[0] for r in reqs]) if reqs else None
+    if answers is None:
+        ctx.notes.append("ogginject_tie.run_faults: model driver unavailable, tie skipped")
+        return ncases
+    if any(a == "bad-op" for a in answers):
+        ctx.notes.append("ogginject_tie.run_faults: the driver does not know op=savem/deletem yet; tie skipped")
+        return ncases
+    from vcheck import parse_fields
+    more = []
+    for (line, exp, case), ans in zip(reqs, answers):
+        st, fld = parse_fields(ans)
+        if exp[0] == "clean":
+            ctx.traces_validated += 1
+            mlog = [] if fld.get("log", "-") == "-" else fld["log"].split(",")
+            if st != "ok" or fld.get("data") != hx(exp[2]):
+                ctx.disagree("ogg save program (clean run)", case, model=ans[:200], impl="ok data=%s" % hx(exp[2])[:150])
+            elif _kinds(exp[1])[len(exp[1]) - len(mlog):] != _kinds(mlog):
+                ctx.disagree("ogg save program: order of file-object calls", case, model=",".join(mlog)[:300],
+                             impl=",".join(exp[1][max(0, len(exp[1]) - len(mlog)):])[:300])
+        elif exp[0] == "run":
+            ctx.traces_validated += 1
+            want = "ok" if exp[1] == "ok" else "err:" + exp[1].split(" ")[1]
+            if st != want or fld.get("data") != hx(exp[2]):
+                ctx.disagree("ogg save program (capacity)", case, model=ans[:200], impl="%s data=%s" % (want, hx(exp[2])[:150]))
+        else:
+            codec, op, i, prepare, act, data, ref = exp[2]
+            mlog = [] if fld.get("log", "-") == "-" else fld["log"].split(",")
+            W = len(exp[1]) - len(mlog)
+            if W < 0:
+                continue
+            picks = sorted(set(list(range(min(len(mlog), 14))) + [rng.randrange(len(mlog)) for _ in range(6) if mlog]))
+            for j in picks:
+                ff = FaultFile(data, fail_at=W + j)
+                t = prepare()
+                k, r = timed(lambda: act(t, ff), 20)
+                after = ff.getvalue()
+                cc = dict(case, fault_at_model_call=j, fault_at_real_call=W + j)
+                ctx.case(key=("oggfault", codec, op, i, "fail", j), nontrivial=True, modelled=True)
+                ncases += 1
+                if k == "ok":
+                    impl = "ok"
+                    if after != ref:
+                        ctx.violation("oggfault:%s:ok-but-not-written" % codec, "normal return although a call failed and the file is not the saved one", cc)
+                else:
+                    impl = classify(r)
+                    if not isinstance(r, MutagenError):
+                        ctx.violation("oggfault:%s:io-fault-raises-%s" % (codec, type(r).__name__), "an injected IOError surfaced as %s" % type(r).__name__, cc)
+                ctx.hist["oggfault:fail:%s" % (impl if impl == "ok" else "err")] += 1
+                more.append((line + " fail=%d:io" % j, ("run", impl, after), cc))
+            # faults before the first write: the file must be as it was
+            for j in sorted(set(rng.randrange(max(1, W)) for _ in range(3))) if W > 0 else []:
+                ff = FaultFile(data, fail_at=j)
+                t = prepare()
+                k, r = timed(lambda: act(t, ff), 20)
+                if k != "ok" and (not isinstance(r, (MutagenError, ValueError)) or ff.getvalue() != data):
+                    ctx.violation("oggfault:%s:read-phase-fault" % codec, "a fault before the first write changed the file or surfaced as %s" % type(r).__name__,
+                                  dict(case, fault_at_real_call=j))
+    if more:
+        for (line, exp, case), ans in zip(more, ask_model(ctx, [m[0] for m in more])):
+            st, fld = parse_fields(ans)
+            ctx.traces_validated += 1
+            want = "ok" if exp[1] == "ok" else "err:" + exp[1].split(" ")[1]
+            if st != want or fld.get("data") != hx(exp[2]):
+                ctx.disagree("ogg save program (injected fault)", case, model=ans[:200], impl="%s data=%s" % (want, hx(exp[2])[:150]))
+    return ncases
+
+
 if __name__ == "__main__":
     # stand-alone run: /venv/bin/python ogginject_tie.py [cases per codec] [seed]
     import sys, random, collections, json
@@ -1066,13 +1262,14 @@ if __name__ == "__main__":
             self.driver = vcheck.Driver(os.path.exists(vcheck.DRIVER))
             return self.driver.available
     c15 = len(sys.argv) > 1 and sys.argv[1] == "c15"          # ogginject_tie.py c15 [cases] [seed]
-    if c15:
+    faults = len(sys.argv) > 1 and sys.argv[1] == "faults"    # ogginject_tie.py faults [layouts per codec] [seed]
+    if c15 or faults:
         sys.argv.pop(1)
     if len(sys.argv) > 1:
-        os.environ["VERIF_OGGAPI_CASES" if c15 else "VERIF_OGGINJECT_CASES"] = sys.argv[1]
+        os.environ["VERIF_OGGAPI_CASES" if c15 else "VERIF_OGGFAULT_CASES" if faults else "VERIF_OGGINJECT_CASES"] = sys.argv[1]
     ctx = _Ctx(int(sys.argv[2]) if len(sys.argv) > 2 else 1)
     only = sys.argv[3].split(",") if len(sys.argv) > 3 else None
-    ncases = run_c15(ctx) if c15 else run(ctx, only)
+    ncases = run_c15(ctx) if c15 else run_faults(ctx) if faults else run(ctx, only)
     print("cases", ncases, "traces", ctx.traces_validated, "disagreements", len(ctx.disagreements), "violations", len(ctx.violations))
     for k, v in sorted(ctx.hist.items()):
         print("  ", k, v)
